@@ -473,6 +473,10 @@ func (vm *Type) Run(retResult bool) (value.Type, error) {
 		case bytecode.YIELD:
 			tmp = vm.fetch(instr.Src0(), instr.Src0Addr(), m, ds)
 
+			if instr.Src1Addr() != 0 { // yield evaluates to the yielded value
+				m.Push(tmp)
+			}
+
 			// otherwise naked yield, in the master context
 			if ctxp.parent != nil {
 				ctxp.m = m
